@@ -577,7 +577,8 @@ def signature(f, ev, trace, prog):
         return 'nested-block-early-start'
     if cl == 'C05.iso.link.late_member':
         return 'group-member-copied-late'
-    if cl.startswith('C07.') and ev.get('ev') == 'Obs' and ('<<-1,' in f['info'] or cl in ('C07.monotone', 'C07.filter.qubit', 'C07.filter.tag', 'C07.partition')):
+    if cl.startswith('C07.') and ev.get('ev') == 'Obs' and any(lf['acq_c'] == -1 for lf in ev['snap']['leaves'].values()) and \
+            ('<<-1,' in f['info'] or cl in ('C07.monotone', 'C07.filter.qubit', 'C07.filter.tag', 'C07.partition')):
         if twin_trigger(trace, f['l'] - 1):
             return 'twin-circuit-registry'
     if cl == 'C01.frame' and ev.get('ev') == 'Obs':
@@ -654,9 +655,9 @@ def erasure(v, programs, traces, prefix='C03.erasure'):
             if cl in ('C03.erasure.operation', 'C03.erasure.block') and (stale(fa) or stale(fb)) and \
                     (memo_trigger(ta, len(ta)) or memo_trigger(tbk, len(tbk))):
                 sig = 'stale-memo'
-            elif cl in ('C03.erasure.operation', 'C03.erasure.indices', 'C03.erasure.export') and \
-                    twin_trigger(ta, len(ta)):
-                sig = 'twin-circuit-registry'
+            elif cl in ('C03.erasure.operation', 'C03.erasure.indices', 'C03.erasure.export') and twin_trigger(ta, len(ta)) and \
+                    any(lf['acq_c'] == -1 for sn in list(fa.values()) + list(fb.values()) for lf in sn['leaves'].values()):
+                sig = 'twin-circuit-registry'          # the twin defect loses the registry: index -1 (a stale index is something else)
             v.fail(cl.replace('C03.erasure', prefix), {'trace': i, 'obj': obj}, signature=sig, replay={'program': programs[i], 'erased': erased[f['row'] - 1]})
     return {'twin_histories': len(rows), 'tlc_states': r.distinct, 'rejected_pairs': len(res['fails'])}
 
